@@ -164,6 +164,10 @@ function genVersion (rng, fi, vi, kind, o) {
     exportsList.push(site.entry || N)
     if (sk === 'method') exportsList.push(N + 'c')
   })
+  if (o.bulk) {
+    // a big module (rewritten content well over 512 KiB): size-dependent paths in the package
+    for (let i = 0; i < 9000; i++) add(`var filler${i} = 'filler text that makes this module big ${String(i).padStart(6, '0')}'`)
+  }
   add('')
   add(`module.exports = { ${[...new Set(exportsList)].join(', ')} }`)
   const v = { kind, sites, text: '', fi, vi }
@@ -206,7 +210,8 @@ function genVersion (rng, fi, vi, kind, o) {
       lines.push('//# sourceMappingURL=data:application/json;base64,' + Buffer.from(json).toString('base64'))
     } else {
       // one map name per file: every version (re-build) of the file overwrites the same .map
-      v.omap.url = `f${fi}.js.map`
+      // `#` and `?` are ordinary characters of file names
+      v.omap.url = [`f${fi}.js.map`, `f${fi}.js.map`, `issue#${fi}.js.map`, `f${fi}.js.map?v=${fi}`][fi % 4 === 3 ? 2 : (fi % 4 === 2 ? 3 : 0)]
       v.omap.mapPath = path.join(path.dirname(o.file), v.omap.url)
       lines.push('//# sourceMappingURL=' + v.omap.url)
     }
